@@ -331,7 +331,10 @@ pub fn run(ctx: &Ctx) -> CheckResult {
     }
     if !res.out.failed() {
         // valid bars with distinct open and volume for DataItem
-        let valid: Vec<Bar> = b_grid().iter().enumerate().map(|(i, b)| Bar { o: if i % 2 == 0 { b.l } else { b.h }, v: (i % 4) as f64 * 1.5, ..*b }).collect();
+        let mut valid: Vec<Bar> = b_grid().iter().enumerate().map(|(i, b)| Bar { o: if i % 2 == 0 { b.l } else { b.h }, v: (i % 4) as f64 * 1.5, ..*b }).collect();
+        // valid bars whose open / close sit within 1e-9 relative of an extreme without being equal to it
+        valid.push(Bar { o: 99.99999995, h: 100.0, l: 90.0, c: 99.99999999999999, v: 1.0 });
+        valid.push(Bar { o: 90.00000001, h: 100.0, l: 90.0, c: 90.00000000000001, v: 2.0 });
         let d2 = if th { 5 } else { 4 };
         let outs = par_run(ctx, &cfgs, |_, cfg| {
             let mut out = JobOut::default();
@@ -352,7 +355,7 @@ pub fn run(ctx: &Ctx) -> CheckResult {
     }
     res.extra.insert("documented_fields".into(), json!(ALL_KINDS.iter().map(|k| (k.name().to_string(), format!("{:?}", documented(*k)))).collect::<std::collections::BTreeMap<_, _>>()));
     res.rule = "case = (configuration, bar sequence): outputs of Next<&T> on bars whose five fields vary independently compared (1e-12 relative) with (i) Next<f64> on the documented field, (iii) the same sequence with every undocumented field replaced (all at once finite / NaN, and one at a time), (iv) a second implementor storing integers, and DataItem on valid bars; (ii) one-price bars vs scalar path; non-trivial = perturbation comparisons".into();
-    res.bounds = format!("all 22 indicators, periods {{1,3}}; all 8^{depth} sequences over B_free; one-price: all 5^{} scalar sequences over {{1,2.5,0.1,7,-3}} and over {{1, 0.75, 0.75+1ulp, 2e-17, 3e-17}} for FAST_STOCH/SLOW_STOCH/TR/ATR/KC n in {{1,2,3,5}}; DataItem: all 10^{} sequences of valid bars", if th { 7 } else { 6 }, if th { 5 } else { 4 });
+    res.bounds = format!("all 22 indicators, periods {{1,3}}; all 10^{depth} sequences over B_free (incl. zero and negative closes, highs, volumes); one-price: all 5^{} scalar sequences over {{1,2.5,0.1,7,-3}} and over {{1, 0.75, 0.75+1ulp, 2e-17, 3e-17}} for FAST_STOCH/SLOW_STOCH/TR/ATR/KC n in {{1,2,3,5}}; DataItem: all 12^{} sequences of valid bars (incl. open/close within 1e-9 of an extreme)", if th { 7 } else { 6 }, if th { 5 } else { 4 });
     res.assumptions = vec!["minimal-trait user types (CloseOnly, Hlc, ...) are compiled and run by the separate /verif/surface crate as part of this check".into()];
     res
 }
